@@ -1,8 +1,11 @@
 import Drv.Util
 import Model.Producer
+import Model.CacheDir
 
 /-! Driver for the producer streams (C01, C04, C08, C11): real `publishBlockInternal` steps,
-crashes between atomic writes and restarts vs `Producer.publish` / `Producer.start`. -/
+crashes between atomic writes and restarts vs `Producer.publish` / `Producer.start`; clean stops whose cache save
+is cut short by a crash vs `CacheDir.restartAfterSaveCrash`.  `step` takes the facts about `pkg/cache`
+(`CacheDir.Facts`); the executables pass `CacheDir.tree`, regenerated from the compiled code. -/
 namespace Drv.Prod
 open Wire Chain _root_.Producer
 
@@ -61,6 +64,7 @@ structure St where
   before : Store := {}       -- durable image before the last step
   ws : List SW := []         -- atomic writes of the last step
   alive : Bool := false
+  cache : List CacheDir.OldFile := []   -- what the cache directory holds (per file of `CacheDir.fileNames`)
   deriving Inhabited
 
 def observe (n : Node) (cls : String) (ws : List SW) (exec : String) : String :=
@@ -69,22 +73,28 @@ def observe (n : Node) (cls : String) (ws : List SW) (exec : String) : String :=
   let lbd := h8 ((n.store.getMeta lastBatchDataKey).getD [])
   s!"out={cls} height={h} disk={disk} mem={showState n.lastState} w={showWs ws} exec={exec} lbd={lbd} head=[{showBlock n.store h}] next=[{showBlock n.store (h+1)}]"
 
-def doStart (s : St) (disk : Store) : St × String :=
-  match start s.cfg disk with
+/-- a fresh cache directory -/
+def noCache : List CacheDir.OldFile := CacheDir.fileNames.map fun _ => .absent
+
+def doStart (s : St) (disk : Store) (r : Except CacheDir.StartErr' (Node × List SW)) : St × String :=
+  match r with
   | .error e =>
-    let cls := match e with | .genesisAboveState => "err:genesisAboveState" | .badWatermark => "err:badWatermark"
+    let cls := match e with
+      | .store .genesisAboveState => "err:genesisAboveState"
+      | .store .badWatermark => "err:badWatermark"
+      | .loadCache => "err:cache"
     ({ s with alive := false }, s!"start {cls}")
   | .ok (n, ws) =>
     ({ s with node := n, before := disk, ws := ws, alive := true }, "start " ++ observe n "ok" ws "-")
 
-def step (s : St) (line : String) : St × String :=
+def step (f : CacheDir.Facts) (s : St) (line : String) : St × String :=
   let o := parseOp line
   match o.verb with
   | "reset" =>
     let pa := o.bytes "pa"
     let cfg : Cfg := { chainId := "vchain", initialHeight := o.nat "ih", genesisTime := o.nat "gt",
                        proposerAddr := pa, key := 1, signerAddr := pa, maxPending := o.nat "maxp" }
-    doStart { cfg := cfg } {}
+    doStart { cfg := cfg, cache := noCache } {} (CacheDir.restartAfterSaveCrash f cfg {} noCache [])
   | "step" =>
     if !s.alive then (s, "dead") else
     let resp? : Option SeqResp :=
@@ -107,14 +117,23 @@ def step (s : St) (line : String) : St × String :=
           | none => "-"
         else "-"
       ({ s with node := n', before := before, ws := ws }, observe n' (outClass out) ws exec)
-  | "crash" | "restart" =>
+  | "crash" =>
     if !s.alive then (s, "dead") else
-    let keep := if o.verb = "crash" then o.nat "keep" else s.ws.length
-    -- a cache file cut short by a crash while it was written makes `LoadCache` (hence `NewManager`) fail
-    if o.verb = "restart" && o.str "cut" ≠ "" && o.nat "frac" < 100 then
-      ({ s with alive := false }, "start err:cache")
-    else
-    doStart s (s.before.applyPrefix keep s.ws)
+    -- the harness restarts a crashed node on a fresh cache directory
+    let disk := s.before.applyPrefix (o.nat "keep") s.ws
+    doStart { s with cache := noCache } disk (CacheDir.restartAfterSaveCrash f s.cfg disk noCache [])
+  | "restart" =>
+    if !s.alive then (s, "dead") else
+    -- clean stop: every write is durable and the caches are saved; `cut=<file> frac=<n>`: a crash during the save
+    -- of that file (after `n` % of its encoding), the files before it are saved, the files after it untouched
+    let disk := s.before.applyPrefix s.ws.length s.ws
+    let n := CacheDir.fileNames.length
+    let pts : List CacheDir.SavePoint :=
+      match CacheDir.fileNames.idxOf? (o.str "cut") with
+      | some i => CacheDir.seqPoints n i (100 ≤ o.nat "frac")
+      | none => List.replicate n .after
+    let imgs := CacheDir.crashImages f s.cache pts
+    doStart { s with cache := imgs.map (·.old) } disk (CacheDir.restartAfterSaveCrash f s.cfg disk s.cache pts)
   | _ => (s, "bad-op")
 
 end Drv.Prod
